@@ -41,6 +41,16 @@ func (c03) Plan(tier string, seed int64) []core.Scenario {
 		out = append(out, core.Scenario{Kind: "w2", Seed: seed*7919 + int64(i), N: map[string]int{"variant": i % 3}, S: map[string]string{}})
 		out = append(out, core.Scenario{Kind: "midframe", Seed: seed*7907 + int64(i), N: map[string]int{"variant": i % 4}, S: map[string]string{}})
 	}
+	// calls issued after the connection loop has ended: no-reconnect loss, closer, client context cancelled
+	nE := 1
+	if tier == "thorough" {
+		nE = 8
+	}
+	for rep := 0; rep < nE; rep++ {
+		for cause := 0; cause < len(faultKinds)+2; cause++ {
+			out = append(out, core.Scenario{Kind: "ended", Seed: seed*7877 + int64(len(out)), N: map[string]int{"cause": cause, "noise": rep % 3}, S: map[string]string{}})
+		}
+	}
 	return out
 }
 func (c03) Run(sc core.Scenario) core.Result {
@@ -50,10 +60,79 @@ func (c03) Run(sc core.Scenario) core.Result {
 		runW2(sc, r3)
 	case "midframe":
 		runMidFrame(sc, r3)
+	case "ended":
+		runEnded(sc, r3)
 	default:
 		runFault(sc, r3, r4)
 	}
 	return r3.Result()
+}
+
+// runEnded: once the client's connection loop has ended (loss on a no-reconnect client, closer,
+// cancellation of the context the client was created with) calls must fail, not block.
+func runEnded(sc core.Scenario, r *core.R) {
+	env := NewEnv(EnvOpt{ServerOpts: []jsonrpc.ServerOption{jsonrpc.WithServerPingInterval(50 * time.Millisecond)}})
+	defer env.Shutdown()
+	pol := noisePolicy(sc)
+	defer pol.Install()()
+	cause := sc.I("cause")
+	cctx, ccancel := context.WithCancel(context.Background())
+	defer ccancel()
+	opts := []jsonrpc.Option{jsonrpc.WithPingInterval(50 * time.Millisecond), jsonrpc.WithTimeout(400 * time.Millisecond)}
+	name := ""
+	if cause < len(faultKinds) {
+		opts = append(opts, jsonrpc.WithNoReconnect())
+		name = "no-reconnect+" + faultKinds[cause]
+	} else if cause == len(faultKinds) {
+		name = "closer"
+	} else {
+		name = "client-context-cancelled"
+	}
+	cl, err := env.NewClient(ClientOpt{Opts: opts, Ctx: cctx})
+	if err != nil {
+		r.Inconclusive("client: %v", err)
+		return
+	}
+	bg := context.Background()
+	h := Tok("h")
+	env.Svc.Hold(h)
+	held := Go(h, func() (string, error) { return cl.Echo(bg, h, "") })
+	env.Svc.WaitEntered(h, core.Grace)
+	switch {
+	case cause < len(faultKinds):
+		env.Px.KillAll(faultKinds[cause])
+	case cause == len(faultKinds):
+		done := make(chan struct{})
+		go func() { cl.Close(); close(done) }()
+		if !core.WaitCh(done, core.Grace) {
+			r.Violate("lost-call:closer", "closer did not return")
+		}
+	default:
+		ccancel()
+	}
+	if !held.Wait(core.Grace) {
+		r.Violate("lost-call:inflight", "%s: the call in flight when the connection loop ended never returned; events: %s", name, core.Log.Tail(30))
+	} else if held.Err == nil {
+		r.Violate("foreign-result", "%s: held call returned %q without its handler finishing", name, held.Val)
+	}
+	env.Svc.ReleaseAll()
+	blocked := 0
+	for i := 0; i < 5; i++ {
+		t := Tok("e")
+		o := Go(t, func() (string, error) { return cl.Echo(bg, t, "") })
+		if !o.Wait(core.Grace) {
+			blocked++
+			r.Violate("lost-call:after-end", "%s: call #%d issued after the client's connection loop ended blocks instead of failing; events: %s", name, i, core.Log.Tail(20))
+			break
+		}
+		if o.Err == nil && o.Val != svc.Reply(t) {
+			r.Violate("foreign-result", "%s: call after end returned %q", name, o.Val)
+		}
+	}
+	r.Key("ended "+name, true)
+	r.Obs("calls_after_loop_end", 5)
+	r.Sig(core.Log.Signature())
+	r.Sample(map[string]interface{}{"cause": name, "in_flight_returned": held.Returned(), "blocked_calls": blocked})
 }
 
 // runMidFrame: the response to a held call is cut in the middle of a frame
